@@ -39,6 +39,8 @@ def limit_forms():
     # an upload control whose file name is empty is still an upload: its bytes go to the file sink, not to the field budget
     forms.append([P("u", "", b"UPLOAD WITH AN EMPTY FILE NAME")])
     forms.append([P("f", None, b"ab"), P("u", "", b"0123456789"), P("g", None, b"cd"), P("v", "", b"")])
+    # names and file names with characters that text-level line splitting takes for line breaks
+    forms.append([P("a\u2028b", None, b"xy"), P("u\x0c", "f\x0b\u0085\x1c.bin", b"0123456789"), P("g\x1e", None, b"z")])
     return forms
 
 
